@@ -2529,6 +2529,39 @@ func vC18CaseCrash(t *testing.T, r *rand.Rand, out *vC18Out, kill bool) {
 	}
 }
 
+// thorough tier only: small scopes exhaustively. One fixed previous list; for each kind of
+// API call the interruption at EVERY byte offset of the new file (killed, and write error),
+// and every named step of persist() failing.
+func vC18Exhaustive(t *testing.T, out *vC18Out) {
+	old := []string{"one.test.", "*.wild.test.", "sub.one.test."}
+	ops := []vC18Op{
+		{"set", []string{"Two.test"}},
+		{"remove", []string{"*.wild.test"}},
+		{"setbatch", []string{"*.three.test.", "four.test", "one.test"}},
+		{"removebatch", []string{"sub.one.test.", "absent.test.", "one.test"}},
+	}
+	for _, op := range ops {
+		for _, f := range vC18FaultSteps {
+			vC18RunFault(t, out, "exhaustive-", nil, old, op, f, "exhaustive")
+		}
+		for limit := 0; limit < 120; limit++ {
+			past := false
+			for _, kill := range []bool{true, false} {
+				lim := limit
+				vC18RunCrashWith(t, out, "exhaustive-", nil, old, op, func(total int) int {
+					if lim > total {
+						past = true
+					}
+					return lim
+				}, kill, "exhaustive")
+			}
+			if past {
+				break
+			}
+		}
+	}
+}
+
 // ---------------------------------------------------------------- entry point
 
 func TestVerifC18(t *testing.T) {
@@ -2567,6 +2600,9 @@ func TestVerifC18(t *testing.T) {
 		nref = 2
 	}
 	vC18CaseRefresh(t, r, out, nref)
+	if os.Getenv("VERIF_TIER") == "thorough" && n >= 100 {
+		vC18Exhaustive(t, out)
+	}
 	only := os.Getenv("VERIF_C18_ONLY") // debugging aid: run a single case kind
 	for c := 0; out.n < n && c < 4*n; c++ {
 		if only == "gated" {
